@@ -39,7 +39,8 @@ var vInstSeq uint64
 var vInstMu sync.Mutex // instance creation touches package globals (Config, defaultServerProtocol): serialise it
 var vNoCheckLoop int32
 
-var vRewriteStarted, vRewriteEnded int64
+var vRewriteStarted, vRewriteEnded, vRotated int64 // vRotated: rotations of a leader's append file; each starts one compaction goroutine
+var vRewriteBase int64 // largest (ended - rotated) seen: the number of compactions that were not started by a rotation (start-ups)
 var vYieldExtra atomic.Value // func(point int): additional handler installed by an engine (crash images, scheduler)
 
 func vSetYieldExtra(f func(point int)) { vYieldExtra.Store(f) }
@@ -51,7 +52,15 @@ func init() {
 		case verifPointAofRewrite:
 			atomic.AddInt64(&vRewriteStarted, 1)
 		case verifPointAofRewrite + 9:
-			atomic.AddInt64(&vRewriteEnded, 1)
+			en := atomic.AddInt64(&vRewriteEnded, 1)
+			for {
+				b, d := atomic.LoadInt64(&vRewriteBase), en-atomic.LoadInt64(&vRotated)
+				if d <= b || atomic.CompareAndSwapInt64(&vRewriteBase, b, d) {
+					break
+				}
+			}
+		case verifPointAofRewrite + 7:
+			atomic.AddInt64(&vRotated, 1)
 		}
 		vYieldExtra.Load().(func(int))(point)
 	}
@@ -186,11 +195,19 @@ func (in *vInst) vCloseSteps(wait bool) {
 // that many had finished before. false = watchdog expired (inconclusive, never a verdict).
 func vWaitRewrite(aof *Aof) bool { return vWaitRewriteAfter(-1) }
 
+// vWaitRewriteRotations additionally waits for the compaction of every rotation counted so far (size-triggered rotations
+// start theirs in a goroutine that may not have reached its entry hook yet). Only for engines whose rotations all go
+// through Aof.RewriteAofFile(true) on a live instance.
+func vWaitRewriteRotations() bool { return vWaitRewriteAfter(-2) }
+
 func vWaitRewriteAfter(endedBefore int64) bool {
 	deadline := time.Now().Add(10 * time.Second)
 	for time.Now().Before(deadline) {
-		st, en := atomic.LoadInt64(&vRewriteStarted), atomic.LoadInt64(&vRewriteEnded)
-		if st == en && (endedBefore < 0 || en > endedBefore) {
+		// a rotation (also a size-triggered one inside a record write) starts its compaction in a goroutine that may not
+		// have reached its entry hook yet: every rotation counted so far must have been followed by a finished compaction
+		// (start-up compactions add to started/ended without a rotation: vRewriteBase tracks how many of those there were)
+		st, en, ro := atomic.LoadInt64(&vRewriteStarted), atomic.LoadInt64(&vRewriteEnded), atomic.LoadInt64(&vRotated)
+		if st == en && (endedBefore != -2 || en-ro >= atomic.LoadInt64(&vRewriteBase)) && (endedBefore < 0 || en > endedBefore) {
 			return true
 		}
 		time.Sleep(100 * time.Microsecond)
